@@ -287,11 +287,11 @@ class ReverseComplementer(SingleEndModifier):
 
         forward_score = sum(m.score for m in forward_matches)
         reverse_score = sum(m.score for m in reverse_matches)
-        use_reverse_complement = reverse_score > forward_score
+        # A match can have a negative score, so also require that there is a match at all
+        use_reverse_complement = bool(reverse_matches) and reverse_score > forward_score
 
         if use_reverse_complement:
             self.reverse_complemented += 1
-            assert reverse_matches
             trimmed_read, matches = reverse_trimmed_read, reverse_matches
             info.is_rc = True
             if self._suffix:
@@ -373,7 +373,10 @@ class PairedReverseComplementer(PairedEndModifier):
         )
 
         # Compare and pick the variant that is better
-        use_reverse_complement = swapped_score > unswapped_score
+        use_reverse_complement = (
+            bool(r1_matches_swapped or r2_matches_swapped)
+            and swapped_score > unswapped_score
+        )
 
         if use_reverse_complement:
             self.reverse_complemented += 1
